@@ -46,11 +46,14 @@ contract(
         ('preconditioned_gradients_kept', 'all(awaited(self._layers[m][1]._grad) is old(awaited(self._layers[m][1]._grad)) for m in self._layers)'),
         ('nothing_else_moves', "frame_same('Tensor.val') and frame_same('Tensor.shape') and frame_same('Tensor.grad') and frame_same('Future.will_be')"),
     ],
-    loops={'iter:reversed(list(self._layers.values()))': dict(index='i', unfold=['clip_sum_step'], invariants=[
+    loops={'iter:reversed(list(self._layers.values()))': dict(index='i', unfold=['clip_sum_step'], hints=[
+        ('this_layer', 'layer is rlayer(self, i)'),
+        ('term_reads_unchanged_state', 'clip_term(rlayer(self, i), self.lr ** 2) == old(clip_term(rlayer(self, i), self.lr ** 2))'),
+    ], invariants=[
         ('partial_sum', 'vg_sum == clip_sum(self, i)'),
         ('all_preconditioned_so_far', 'all(old(flayer(self, m)._grad) is not None for m in range(len(self._layers) - i, len(self._layers)))'),
         ('gradients_stable', 'all(awaited(self._layers[m][1]._grad) is old(awaited(self._layers[m][1]._grad)) for m in self._layers)'),
-        ('nothing_else_moves', "frame_same('Tensor.val') and frame_same('Tensor.shape') and frame_same('Tensor.grad') and frame_same('Future.will_be')"),
+        # (that nothing else moves is the function's own frame condition, carried by every loop implicitly)
     ])},
     modifies=['*._grad', '*.resolved', 'ghost:next_sid'],
 )
